@@ -603,6 +603,7 @@ impl BoolKind for Zbdd {
 /// (reordering an empty manager only permutes the level maps), so that the
 /// checks that do not target reordering do not depend on its node-moving code.
 pub fn fresh<K: BoolKind>(n: u32, order: &[u32], nodes: usize, cache: usize, threads: u32) -> MRefOf<K> {
+    crate::proto::throttle_threads();
     let mref = K::new_manager(nodes, cache, threads);
     mref.with_manager_exclusive(|m| {
         m.add_vars(n);
